@@ -66,7 +66,14 @@ class _Run:
                 # a bytes caption and text (UTF-8): offsets count bytes and must never split a character
                 cap = cap.encode("utf-8") if isinstance(cap, str) else cap
                 txt = txt.encode("utf-8") if isinstance(txt, str) else txt
-            e = urwid.Edit(cap, txt, multiline=cfg.get("multiline", False), align=cfg.get("align", "left"), wrap=cfg.get("wrap", "space"), allow_tab=cfg.get("allow_tab", False), mask=cfg.get("mask"))
+            kw = {}
+            if cfg.get("ctor_pos") is not None and pos is None and text is None:
+                # the initial cursor position given to the constructor (clamped to a character boundary in bytes mode)
+                p0 = min(int(cfg["ctor_pos"]), len(txt))
+                while isinstance(txt, bytes) and pos_inside_char(txt, p0):
+                    p0 -= 1
+                kw["edit_pos"] = p0
+            e = urwid.Edit(cap, txt, multiline=cfg.get("multiline", False), align=cfg.get("align", "left"), wrap=cfg.get("wrap", "space"), allow_tab=cfg.get("allow_tab", False), mask=cfg.get("mask"), **kw)
         elif k == "int":
             e = urwid.IntEdit(cap, txt if txt else None)
         elif k == "integer":
@@ -736,6 +743,8 @@ class EditEngine(Engine):
             if rng.random() < 0.2:
                 cfg["bytes"] = True
                 cfg["mask"] = None
+            if rng.random() < 0.25:
+                cfg["ctor_pos"] = rng.choice([0, 1, 2, 5, 99])
         else:
             self._wide = False
             kind = rng.choice(["int", "integer", "float"])
